@@ -54,7 +54,7 @@ class C18(Prop):
         mod, dem = C20P.programs(san=(ctx.tier != "quick"))
         rng = ctx.rng
         for trial in range(2 if ctx.tier == "quick" else 8):
-            nfr = rng.choice([120, 200, 333])
+            nfr = 400 if trial == 0 else rng.choice([120, 200, 333, 700])      # one run always beyond 2^16 transmitted bits
             inv = trial % 2
             src = "".join(rng.choice("ABCDEFGHIJKLMNOPQRSTUVWXYZ0123456789") for _ in range(rng.randrange(1, 10)))
             cmd_m = [mod, "-S", src, "-B"] + (["-i"] if inv else [])
@@ -73,6 +73,28 @@ class C18(Prop):
                 pm.kill(); rest, merr = pm.communicate()
                 merr += b"\nTIMEOUT: m17-mod -B did not stop on SIGINT"
             bb = bb[:want - (want % 2)]
+            first = None
+            if trial % 2 == 1:
+                # two transmissions into ONE receiver process, each followed by 1 s of weak noise (carrier drops in between): the counts shown
+                # at the end are those of the second transmission only (the validator is reset when the carrier is lost)
+                import struct, random as _r
+                nr = _r.Random(rng.randrange(10 ** 6))
+                gap = b"".join(struct.pack("<h", int(nr.gauss(0, 40))) for _ in range(48000))
+                n1 = rng.choice([150, 250])
+                first = n1
+                p1 = subprocess.Popen(cmd_m, stdout=subprocess.PIPE, stderr=subprocess.PIPE, env=core.san_env())
+                w1 = 3840 * (n1 + 1); b1 = b""
+                while len(b1) < w1:
+                    chunk = p1.stdout.read(w1 - len(b1))
+                    if not chunk:
+                        break
+                    b1 += chunk
+                p1.send_signal(signal.SIGINT)
+                try:
+                    p1.communicate(timeout=60)
+                except subprocess.TimeoutExpired:
+                    p1.kill(); p1.communicate()
+                bb = b1[:w1] + gap + bb + gap
             cmd_d = [dem] + (["-d"] if trial % 2 else ["-l"]) + (["-i"] if inv else [])
             pd = subprocess.run(cmd_d, input=bb, stdout=subprocess.PIPE, stderr=subprocess.PIPE, timeout=600, env=core.san_env())
             err = pd.stderr.decode(errors="replace")
@@ -83,16 +105,41 @@ class C18(Prop):
                 probs.append(f"m17-mod -B exit status {pm.returncode} after SIGINT: {core.first_err_line(merr.decode(errors='replace'))}")
             if pd.returncode != 0:
                 probs.append(f"m17-demod exit status {pd.returncode}: {core.first_err_line(err)}")
-            m = re.findall(r"BER: ([0-9.]+) \((\d+) bits\)", err)
+            m = [(float(a), int(b)) for a, b in re.findall(r"BER: ([0-9.]+) \((\d+) bits\)", err)]
             if not m:
                 probs.append("m17-demod printed no BER line for a BERT transmission")
             else:
-                ber, nb = float(m[-1][0]), int(m[-1][1])
-                ctx.stat("bert-pipeline:bits-validated", nb)
-                if ber != 0.0:
-                    probs.append(f"clean BERT transmission of {nfr} frames received with BER {ber} over {nb} bits (must be 0)")
-                if nb < (nfr - 40) * 197:
-                    probs.append(f"only {nb} bits validated of {nfr} x 197 transmitted (at most the first 40 frames may be lost to acquisition)")
+                # runs of the display: the bit count only grows until the validator is reset (carrier lost) or re-locks
+                runs, cur = [], [m[0]]
+                for x in m[1:]:
+                    if x[1] < cur[-1][1]:
+                        runs.append(cur); cur = [x]
+                    else:
+                        cur.append(x)
+                runs.append(cur)
+                ctx.stat("bert-pipeline:display-runs", len(runs))
+                if first is None:
+                    ber, nb = m[-1]
+                    ctx.stat("bert-pipeline:bits-validated", nb)
+                    if ber != 0.0:
+                        probs.append(f"clean BERT transmission of {nfr} frames received with BER {ber} over {nb} bits (must be 0)")
+                    if nb < (nfr - 40) * 197:
+                        probs.append(f"only {nb} bits validated of {nfr} x 197 transmitted (at most the first 40 frames may be lost to acquisition)")
+                else:
+                    # two transmissions, each followed by noise (which the receiver may decode as a few erroneous BERT frames before the carrier
+                    # drops): each must appear as a display run of its own that reaches nearly all of its bits with zero errors
+                    def clean_bits(run):
+                        return max([b for (r, b) in run if r == 0.0] or [0])
+                    big = [r for r in runs if clean_bits(r) >= 20 * 197]
+                    ctx.stat("bert-pipeline:bits-validated", sum(clean_bits(r) for r in big))
+                    if len(big) != 2:
+                        probs.append(f"two BERT transmissions ({first} and {nfr} frames, a carrier drop between them) appear as {len(big)} error-free display run(s) "
+                                     f"(bit counts at the end of each run: {[r[-1][1] for r in runs][:8]}): the validator was not reset when the carrier was lost")
+                    else:
+                        for r, n_ in zip(big, (first, nfr)):
+                            cb = clean_bits(r)
+                            if cb < (n_ - 40) * 197 or cb > (n_ + 3) * 197:
+                                probs.append(f"transmission of {n_} frames: {cb} bits validated error-free (expected {(n_ - 40) * 197}..{(n_ + 3) * 197})")
             if probs:
                 bbp = os.path.join(core.VERIF, "evidence", "replay", f"C18-bert-{trial}.bb.raw")
                 os.makedirs(os.path.dirname(bbp), exist_ok=True)
